@@ -1,4 +1,334 @@
+//! vq-c05: wire-codec engine of the /verif harness.
+//!
+//! `vq-c05 --check codec|pn|tp --seed S --iters N [--start I] [--mode native|miri]
+//!         [--budget-ms B] [--replay file.json] [--verbose]`
+//!
+//! Executes the real decoders/encoders of s2n-codec and s2n-quic-core against the independent
+//! reference in `vq-wire` and prints exactly one `SUMMARY {json}` line. See README.md.
+
+mod codec;
+mod gen;
+mod pn;
 mod s2n;
+mod tp;
+
+use std::{
+    collections::BTreeSet,
+    sync::{
+        atomic::{AtomicU64, Ordering},
+        Arc, Mutex,
+    },
+    time::{Duration, Instant},
+};
+use vq_util::{arg_str, arg_u64, json, Summary, Value, Violation};
+
+/// Per-worker state handed to the checks.
+pub struct Ctx {
+    pub sum: Summary,
+    pub miri: bool,
+    pub verbose_on: bool,
+    seen_signatures: BTreeSet<String>,
+    current: Arc<Mutex<String>>,
+    track_current: bool,
+}
+
+impl Ctx {
+    fn new(miri: bool, verbose_on: bool, current: Arc<Mutex<String>>) -> Self {
+        Ctx {
+            sum: Summary::default(),
+            miri,
+            verbose_on,
+            seen_signatures: BTreeSet::new(),
+            current,
+            track_current: true,
+        }
+    }
+
+    /// Record a violation; repeats of the same signature are only counted.
+    pub fn violation(&mut self, property: &str, signature: String, what: String, replay: Value) {
+        self.sum.count(&format!("violation:{signature}"), 1);
+        if self.verbose_on {
+            eprintln!("VIOLATION {property} {signature}: {what}");
+        }
+        if self.seen_signatures.insert(signature.clone()) {
+            self.sum.violation(Violation {
+                property: property.into(),
+                signature,
+                what,
+                replay,
+            });
+        }
+    }
+
+    pub fn verbose(&self, f: impl FnOnce() -> String) {
+        if self.verbose_on {
+            eprintln!("{}", f());
+        }
+    }
+
+    /// what the worker is about to execute (read by the watchdog when it stalls)
+    pub fn set_current(&mut self, f: impl FnOnce() -> String) {
+        if self.track_current {
+            *self.current.lock().unwrap() = f();
+        }
+    }
+}
+
+#[derive(Clone, Copy, PartialEq)]
+enum Check {
+    Codec,
+    Pn,
+    Tp,
+}
+
+/// Self-test knob for the watchdog: `--stall-at I --stall-ms M [--stall-alone]` makes input I
+/// take M extra milliseconds in the batch (and also in the solo re-run with --stall-alone).
+#[derive(Clone, Copy)]
+struct Stall {
+    at: u64,
+    ms: u64,
+    alone: bool,
+}
+
+fn run_one(check: Check, ctx: &mut Ctx, seed: u64, index: u64) {
+    match check {
+        Check::Codec => codec::one(ctx, seed, index),
+        Check::Pn => pn::one(ctx, seed, index),
+        Check::Tp => tp::one(ctx, seed, index),
+    }
+}
+
 fn main() {
+    let args = vq_util::parse_args();
+    let check = match arg_str(&args, "check", "codec") {
+        "codec" => Check::Codec,
+        "pn" => Check::Pn,
+        "tp" => Check::Tp,
+        other => {
+            eprintln!("vq-c05: unknown --check {other} (codec|pn|tp)");
+            std::process::exit(3);
+        }
+    };
+    let miri = arg_str(&args, "mode", if cfg!(miri) { "miri" } else { "native" }) == "miri";
+    let seed = arg_u64(&args, "seed", 1);
+    let iters = arg_u64(&args, "iters", if miri { 500 } else { 200_000 });
+    let start = arg_u64(&args, "start", 0);
+    let verbose = args.contains_key("verbose") || args.contains_key("replay");
+    // wall-clock budget for a single input before the watchdog steps in
+    let budget = Duration::from_millis(arg_u64(
+        &args,
+        "budget-ms",
+        if miri { 120_000 } else { 2_000 },
+    ));
+    let stall = args.get("stall-at").map(|_| Stall {
+        at: arg_u64(&args, "stall-at", 0),
+        ms: arg_u64(&args, "stall-ms", 0),
+        alone: args.contains_key("stall-alone"),
+    });
     s2n::install_panic_hook();
+
+    let current = Arc::new(Mutex::new(String::new()));
+
+    if let Some(path) = args.get("replay") {
+        let mut ctx = Ctx::new(miri, true, current.clone());
+        let r = std::fs::read_to_string(path)
+            .map_err(|e| e.to_string())
+            .and_then(|s| serde_json_from_str(&s))
+            .and_then(|v: Value| {
+                // accept either the bare replay object or a whole violation record
+                let v = if v.get("replay").is_some() {
+                    v["replay"].clone()
+                } else {
+                    v
+                };
+                if v["kind"].as_str() == Some("index") {
+                    let check = match v["check"].as_str().unwrap_or("codec") {
+                        "pn" => Check::Pn,
+                        "tp" => Check::Tp,
+                        _ => Check::Codec,
+                    };
+                    run_one(
+                        check,
+                        &mut ctx,
+                        v["seed"].as_u64().unwrap_or(0),
+                        v["index"].as_u64().unwrap_or(0),
+                    );
+                    return Ok(());
+                }
+                match v["check"].as_str().unwrap_or("codec") {
+                    "pn" => pn::replay(&mut ctx, &v),
+                    "tp" => tp::replay(&mut ctx, &v),
+                    _ => codec::replay(&mut ctx, &v),
+                }
+            });
+        if let Err(e) = r {
+            ctx.sum.inconclusive.push(format!("replay failed: {e}"));
+        }
+        ctx.sum.print();
+        return;
+    }
+
+    // The worker publishes its progress; the main thread is the watchdog (T: "never loops").
+    let progress = Arc::new(AtomicU64::new(0));
+    let shared: Arc<Mutex<Option<Summary>>> = Arc::new(Mutex::new(None));
+    let worker = {
+        let progress = progress.clone();
+        let shared = shared.clone();
+        let current = current.clone();
+        std::thread::Builder::new()
+            .name("worker".into())
+            .stack_size(16 << 20)
+            .spawn(move || {
+                let mut ctx = Ctx::new(miri, verbose, current);
+                for i in start..start + iters {
+                    if let Some(st) = stall {
+                        if st.at == i {
+                            ctx.set_current(|| format!("class=selftest-stall seed={seed} index={i}"));
+                            std::thread::sleep(Duration::from_millis(st.ms));
+                        }
+                    }
+                    run_one(check, &mut ctx, seed, i);
+                    progress.store(i - start + 1, Ordering::Release);
+                    if (i - start) % 256 == 255 {
+                        // checkpoint so that a later stall does not lose the evidence
+                        let mut s = shared.lock().unwrap();
+                        let mut snap = Summary::default();
+                        std::mem::swap(&mut snap, &mut ctx.sum);
+                        match s.as_mut() {
+                            Some(acc) => acc.merge(snap),
+                            None => *s = Some(snap),
+                        }
+                    }
+                }
+                let mut s = shared.lock().unwrap();
+                let mut snap = Summary::default();
+                std::mem::swap(&mut snap, &mut ctx.sum);
+                match s.as_mut() {
+                    Some(acc) => acc.merge(snap),
+                    None => *s = Some(snap),
+                }
+            })
+            .expect("spawn worker")
+    };
+
+    let t0 = Instant::now();
+    let mut last = (0u64, Instant::now());
+    let mut stalled_at: Option<u64> = None;
+    loop {
+        if worker.is_finished() {
+            break;
+        }
+        std::thread::sleep(Duration::from_millis(if miri { 200 } else { 20 }));
+        let p = progress.load(Ordering::Acquire);
+        if p != last.0 {
+            last = (p, Instant::now());
+        } else if last.1.elapsed() > budget {
+            stalled_at = Some(start + p);
+            break;
+        }
+    }
+
+    let mut sum = match stalled_at {
+        None => {
+            let joined = worker.join();
+            let mut sum = shared.lock().unwrap().take().unwrap_or_default();
+            if joined.is_err() {
+                sum.inconclusive
+                    .push("worker thread died outside a guarded call".into());
+            }
+            sum
+        }
+        Some(index) => {
+            // Budget overrun: re-run that input alone with 100x the budget before calling it
+            // a hang; the stalled worker thread is abandoned.
+            let what = current.lock().unwrap().clone();
+            eprintln!("vq-c05: input {index} ({what}) exceeded {budget:?}; re-running it alone");
+            let mut sum = shared.lock().unwrap().take().unwrap_or_default();
+            let done = Arc::new(Mutex::new(None::<Summary>));
+            {
+                let done = done.clone();
+                let current = Arc::new(Mutex::new(String::new()));
+                std::thread::Builder::new()
+                    .stack_size(16 << 20)
+                    .spawn(move || {
+                        let mut ctx = Ctx::new(miri, false, current);
+                        if let Some(st) = stall {
+                            if st.alone {
+                                std::thread::sleep(Duration::from_millis(st.ms));
+                            }
+                        }
+                        run_one(check, &mut ctx, seed, index);
+                        *done.lock().unwrap() = Some(ctx.sum);
+                    })
+                    .expect("spawn rerun");
+            }
+            let deadline = Instant::now() + budget * 100;
+            let mut finished = None;
+            while Instant::now() < deadline {
+                if let Some(s) = done.lock().unwrap().take() {
+                    finished = Some(s);
+                    break;
+                }
+                std::thread::sleep(Duration::from_millis(50));
+            }
+            match finished {
+                Some(s) => {
+                    sum.merge(s);
+                    sum.inconclusive.push(format!(
+                        "input {index} ({what}) exceeded the {budget:?} budget in the batch but finished alone; remaining {} inputs not run",
+                        (start + iters).saturating_sub(index + 1)
+                    ));
+                }
+                None => {
+                    sum.evaluations += 1;
+                    let prop = match check {
+                        Check::Codec => codec::PROPERTY,
+                        Check::Pn => pn::PROPERTY,
+                        Check::Tp => tp::PROPERTY,
+                    };
+                    sum.violation(Violation {
+                        property: prop.into(),
+                        signature: format!(
+                            "hang:{}",
+                            what.split_whitespace()
+                                .next()
+                                .unwrap_or("unknown")
+                                .trim_start_matches("class=")
+                        ),
+                        what: format!(
+                            "input {index} ({what}) did not finish within {:?} even when run alone",
+                            budget * 100
+                        ),
+                        replay: json!({"check": match check { Check::Codec => "codec", Check::Pn => "pn", Check::Tp => "tp" },
+                            "kind": "index", "seed": seed, "index": index}),
+                    });
+                }
+            }
+            sum
+        }
+    };
+
+    let secs = t0.elapsed().as_secs_f64();
+    sum.count("elapsed_ms", (secs * 1000.0) as u64);
+    if secs > 0.0 {
+        sum.max(
+            "inputs_per_minute",
+            (sum.evaluations as f64 / secs * 60.0) as i64,
+        );
+    }
+    if sum.evaluations == 0 {
+        sum.inconclusive.push("no inputs were executed".into());
+    }
+    // a few concrete cases as evidence
+    sum.sample(json!({"check": match check { Check::Codec => "codec", Check::Pn => "pn", Check::Tp => "tp" },
+        "seed": seed, "start": start, "iters": iters, "mode": if miri { "miri" } else { "native" }}));
+    sum.print();
+    if stalled_at.is_some() {
+        // do not wait for the abandoned thread
+        std::process::exit(0);
+    }
+}
+
+fn serde_json_from_str(s: &str) -> Result<Value, String> {
+    s.parse::<Value>().map_err(|e| e.to_string())
 }
